@@ -234,6 +234,16 @@ def entity_table():
         "OneCoreDisk": ("sketch", lambda: cb.OneCoreDisk([0.2, 0.1, 0.0], [1.2, 0.1, 0.0], [0, 0, 1])),
         "FourCoreDisk": ("sketch", lambda: cb.FourCoreDisk([0.2, 0.1, 0.0], [1.2, 0.1, 0.0], [0, 0, 1])),
         "ExtrudedShape": ("additive", lambda: cb.ExtrudedShape(cb.OneCoreDisk([0.2, 0.1, 0.0], [1.2, 0.1, 0.0], [0, 0, 1]), [0.1, 0.0, 1.0])),
+        # the other disk-like sketches, and a shape lofted from each (an object that several faces of the sketch hold
+        # must move once, however many operations of the shape see it)
+        "Oval": ("sketch", lambda: cb.Oval([0.2, 0.1, 0.0], [1.4, 0.3, 0.0], [0, 0, 1], 0.5)),
+        "HalfDisk": ("sketch", lambda: cb.HalfDisk([0.2, 0.1, 0.0], [1.2, 0.1, 0.0], [0, 0, 1])),
+        "WrappedDisk": ("sketch", lambda: cb.WrappedDisk([0.2, 0.1, 0.0], [1.2, 1.1, 0.0], 0.6, [0, 0, 1])),
+        "ExtrudedOval": ("additive", lambda: cb.ExtrudedShape(cb.Oval([0.2, 0.1, 0.0], [1.4, 0.3, 0.0], [0, 0, 1], 0.5), [0.1, 0.0, 1.0])),
+        "ExtrudedHalfDisk": ("additive", lambda: cb.ExtrudedShape(cb.HalfDisk([0.2, 0.1, 0.0], [1.2, 0.1, 0.0], [0, 0, 1]), [0.1, 0.0, 1.0])),
+        "ExtrudedFourCoreDisk": ("additive", lambda: cb.ExtrudedShape(cb.FourCoreDisk([0.2, 0.1, 0.0], [1.2, 0.1, 0.0], [0, 0, 1]), 0.8)),
+        "ExtrudedWrappedDisk": ("additive", lambda: cb.ExtrudedShape(cb.WrappedDisk([0.2, 0.1, 0.0], [1.2, 1.1, 0.0], 0.6, [0, 0, 1]), 0.8)),
+        "ExtrudedSplineDisk": ("additive", lambda: cb.ExtrudedShape(cb.SplineDisk([0.2, 0.1, 0.0], [1.2, 0.1, 0.0], [0.2, 1.3, 0.0], 0.2, 0.3), 0.8)),
         "Cylinder": ("additive", lambda: cb.Cylinder([0.2, 0.1, 0.3], [0.2, 0.1, 1.5], [0.9, 0.1, 0.3])),
         "Frustum": ("additive", lambda: cb.Frustum([0.2, 0.1, 0.3], [0.2, 0.1, 1.5], [0.9, 0.1, 0.3], 0.4, 0.8)),
         "Elbow": ("additive", lambda: cb.Elbow([0, 0, 0], [0.5, 0, 0], [0, 0, 1], 1.1, [2.0, 0, 0], [0, 1, 0], 0.4)),
